@@ -883,3 +883,106 @@ def rule_run(ctx, R):
 
 
 RULES.append(("C01.RUN", "`hyeong run` executes every command of the program in order, threading the state (both branches)", rule_run))
+
+
+def rule_codeapi(ctx, R):
+    """the command record: every getter returns the field it is named after (the area count of an unoptimised command
+    is syllables x dots), and the constructors store each argument in the field of the same name.  All the rules that
+    speak of KIND / HANGUL / DOT / AREACOUNT / AREA take these getters as the meaning of the words."""
+    from . import p_c06
+    fb = ctx.fb
+    G = {
+        "get_type": {"RET(P1.type_)"}, "get_hangul_count": {"RET(P1.hangul_count)"}, "get_dot_count": {"RET(P1.dot_count)"},
+        "get_area": {"RET(P1.area)"},
+    }
+    AC = {"UnOptCode": {"RET((P1.dot_count Mul P1.hangul_count))", "RET((P1.hangul_count Mul P1.dot_count))"}, "OptCode": {"RET(P1.area_count)"}}
+    n = 0
+    fields = {}
+    for impl in ("UnOptCode", "OptCode"):
+        for meth, want in list(G.items()) + [("get_area_count", AC[impl])]:
+            name = "<core::code::%s as hyeong::core::code::Code>::%s" % (impl, meth)
+            if not R.anchor(name in fb.bodies, "codeapi:%s:%s" % (impl, meth), name):
+                continue
+            b, d = p_c06.fn_lang(fb, name, epsilon=set(), set_events=True)
+            R.analyse(name)
+            try:
+                words = d.enumerate_all(limit=20)
+            except RuntimeError:
+                words = None
+            n += 1
+            R.check(words is not None and len(words) == 1 and len(words[0]) == 1 and words[0][0] in want, "codeapi:%s:%s" % (impl, meth), "%s::%s returns %s: %s" % (impl, meth, sorted(want)[0][4:-1], words), b.span)
+            # field index of the name, for the constructor check
+            for blk in b.blocks:
+                for st in blk["stmts"]:
+                    for pl in ([st["r"].get("p")] if st.get("k") == "assign" and isinstance(st.get("r"), dict) else []) + ([st["r"]["x"].get("p")] if st.get("k") == "assign" and isinstance(st.get("r"), dict) and isinstance(st["r"].get("x"), dict) else []):
+                        if isinstance(pl, dict):
+                            for e in pl.get("proj", []):
+                                if isinstance(e, dict) and "f" in e and "n" in e:
+                                    fields.setdefault(impl, {})[e["n"]] = int(e["f"])
+    for nm, want in (("get_location", {"RET(P1.loc)"}), ("get_raw", {"RET(Clone::clone(P1.code))"})):
+        name = "core::code::UnOptCode::" + nm
+        if R.anchor(name in fb.bodies, "codeapi:UnOptCode:" + nm, name):
+            b, d = p_c06.fn_lang(fb, name, epsilon=set(), set_events=True)
+            R.analyse(name)
+            try:
+                words = d.enumerate_all(limit=20)
+            except RuntimeError:
+                words = None
+            n += 1
+            R.check(words is not None and len(words) == 1 and words[0][-1] in want, "codeapi:UnOptCode:" + nm, "UnOptCode::%s returns the command's %s: %s" % (nm, "location" if nm == "get_location" else "own source text", words), b.span)
+    # constructors: argument k is stored in the field with the k-th name
+    CT = {"UnOptCode": ["type_", "hangul_count", "dot_count", "loc", "area", "code"], "OptCode": ["type_", "hangul_count", "dot_count", "area_count", "area"]}
+    for impl, names in CT.items():
+        name = "core::code::%s::new" % impl
+        b = fb.bodies.get(name)
+        if not R.anchor(b is not None, "codeapi:%s:new" % impl, name):
+            continue
+        R.analyse(name)
+        roles = Roles(b, fb, param_roles={i: "P%d" % i for i in range(1, b.argc + 1)})
+        aggs = [(st, bi, si) for bi, blk in enumerate(b.blocks) if not blk["cleanup"] for si, st in enumerate(blk["stmts"]) if st["k"] == "assign" and st["r"]["k"] == "agg" and str(st["r"].get("adt", "")).endswith(impl)]
+        ok, why = False, "aggregates %d" % len(aggs)
+        if len(aggs) == 1:
+            st, bi, si = aggs[0]
+            got = [roles.of_operand(x, bi) for x in st["r"]["fields"]]
+            idx = fields.get(impl, {})
+            # every getter-visible field sits where its getter reads it, and receives the parameter of the same name
+            want_at = {idx[nm]: "P%d" % (k + 1) for k, nm in enumerate(names) if nm in idx}
+            ok = len(got) == len(names) and all(got[i] in (p_, "COPY(%s)" % p_) for i, p_ in want_at.items()) and sorted(got) == sorted("P%d" % (k + 1) for k in range(len(names))) and len(want_at) >= 4
+            why = "fields %s, getters read %s" % (got, {nm: idx.get(nm) for nm in names})
+        n += 1
+        R.check(ok, "codeapi:%s:new" % impl, "%s::new stores every argument in the field its getter reads: %s" % (impl, why), b.span)
+    R.floor("code_accessors", n, 14, "getters and constructors of the two command records", slack=0.9)
+
+
+RULES.append(("C01.CODEAPI", "the command record: getters return their own field, area count = syllables x dots, constructors store arguments in the fields of the same name", rule_codeapi))
+
+
+def rule_streams(ctx, R):
+    """which operating-system stream is which: main builds one writer on standard output and one on standard error and
+    hands them, in that order, to sub_main; sub_main hands the first to every sub-command as its terminal/standard
+    output and the second to `run` as the program's standard error"""
+    fb = ctx.fb_all
+    mb, sb = fb.bodies.get("hyeong::main"), fb.bodies.get("hyeong::sub_main")
+    if not R.anchor(mb is not None and sb is not None, "main_fns", "main and sub_main of the binary"):
+        return
+    R.analyse(mb.name)
+    R.analyse(sb.name)
+    mr = Roles(mb, fb)
+    calls = [(bi, t) for bi, t in mb.calls() if callee_name(t["f"], fb) == "hyeong::sub_main"]
+    if R.anchor(len(calls) == 1, "sub_main_call", "main's call of sub_main"):
+        bi, t = calls[0]
+        a = [mr.of_operand(x, bi) for x in t["args"][:2]]
+        R.check(a[0].startswith("StandardStream::stdout(") and a[1].startswith("StandardStream::stderr("), "streams:main", "main hands sub_main a writer on standard output first and a writer on standard error second: %s" % [x[:24] for x in a], t["span"]["at"])
+    sr = Roles(sb, fb, param_roles={1: "STDOUT", 2: "STDERR", 3: "MATCHES", 4: "OPT"})
+    want = {"hyeong::app::run::run": ["STDOUT", "STDERR"], "hyeong::app::check::run": ["STDOUT"], "hyeong::app::debug::run": ["STDOUT"], "hyeong::app::interpreter::run": ["STDOUT"], "hyeong::app::build::run": ["STDOUT"]}
+    seen = 0
+    for bi, t in sb.calls():
+        n = callee_name(t["f"], fb)
+        if n in want:
+            seen += 1
+            a = [sr.of_operand(x, bi) for x in t["args"][: len(want[n])]]
+            R.check(a == want[n], "streams:sub_main:%s" % n.rsplit("::", 2)[-2], "%s receives the standard-output writer%s: %s" % (n.rsplit("::", 2)[-2], " and then the standard-error writer" if len(want[n]) == 2 else "", a), t["span"]["at"])
+    R.floor("subcommands", seen, 5, "sub-commands started from sub_main", slack=1.0)
+
+
+RULES.append(("C01.STREAMS", "the program's standard output / standard error are the process's: main and sub_main hand the two writers on in the right order", rule_streams))
